@@ -1,6 +1,124 @@
-(* C13 — property theorems (placeholder while the model is being tied to the code) *)
+(* C13 — swapping parameters into a module is exact, isolated and always undone.
+   Property theorems only: each is closed by [exact] of a lemma proved in Proofs/, followed by Print Assumptions
+   (parsed by the harness on every run).  Vocabulary (Proofs/C13_SwapP.v):
+     slot3 n k        what _parameters / _buffers / __dict__ of module node n hold under the name k (object identities)
+     all_sloteq a b   every module of state a holds, under every name, exactly what it holds in state b (same objects in
+                      the same dict; nothing added, nothing lost), same _modules, same type
+     wf_heap h        a name lives in one dict of a regular module, _parameters holds Parameters, the other two do not;
+                      modules with their own __setattr__ have no tensor in __dict__
+     block_ok h b     plain block: no use_state_dict / inplace=True / swap_dest / hand-written swap-back, unique keys,
+                      and [scope]: no buffer name of a regular module is given an nn.Parameter (D131), None entries of a
+                      custom-__setattr__ module are not addressed
+     run_blocks       nested `with p.to_module(m):` blocks with an exception injected at a level (Model/C13_Swap.v);
+                      run_blocks = run_blocks_gen fixed_D6 (fixed_D6 = false: the code as it is) *)
 From Coq Require Import ZArith List String Bool.
-From TD Require Import Model.C13_Swap.
-Theorem C13_placeholder : fixed_D6 = false.
-Proof. reflexivity. Qed.
-Print Assumptions C13_placeholder.
+Import ListNotations.
+From TD Require Import Model.C13_Swap Model.C13_Scope Model.C13_Params Proofs.C13_SwapP Proofs.C13_ExactP.
+Open Scope string_scope.
+
+(* ---- from_module_exact: the captured tensordict has exactly the qualified names of torch's named_parameters /
+   named_buffers (remove_duplicate=False) with the same objects (tied tensors stay one object); None when there is none *)
+Theorem C13_from_module_exact : forall h fuel m t,
+  (forall c n, h_get h c = Some n -> names_ok n) -> from_module fuel h m = FmTd t ->
+  exists ps bs, named_members m_params fuel h m "" = Some ps /\ named_members m_bufs fuel h m "" = Some bs
+    /\ forall name o, In (name, o) (flat_leaves "" t) <-> In (name, o) ps \/ In (name, o) bs.
+Proof. exact from_module_exact. Qed.
+Print Assumptions C13_from_module_exact.
+
+Theorem C13_from_module_none : forall h fuel m,
+  (forall c n, h_get h c = Some n -> names_ok n) -> from_module fuel h m = FmNone ->
+  named_members m_params fuel h m "" = Some [] /\ named_members m_bufs fuel h m "" = Some [].
+Proof. exact from_module_none. Qed.
+Print Assumptions C13_from_module_none.
+
+(* ---- swap_then_restore, one call level: to_module followed by to_module of the returned swap puts every slot of every
+   module back (any tree: shared submodules through the memo, tied tensors, custom-__setattr__ modules, subsets) and
+   writes no tensor content *)
+Theorem C13_swap_then_swap_back : forall b st st1 memo1 swap,
+  block_ok (t_heap st) b -> wf_heap (t_heap st) ->
+  to_module (cfg_of b true) (b_params b) (b_target b) st = TmOk st1 memo1 swap ->
+  exists st2 memo2 sw2, to_module (cfg_of b true) swap (b_target b) st1 = TmOk st2 memo2 sw2
+    /\ all_sloteq st2 st /\ t_vals st2 = t_vals st.
+Proof. exact swap_then_swap_back. Qed.
+Print Assumptions C13_swap_then_swap_back.
+
+(* ---- swap_then_restore, programs: any nesting of with-blocks (each on any module of the tree) in which nothing is
+   raised restores every slot; holds for the code as it is and for the repaired __exit__ alike *)
+Theorem C13_swap_then_restore : forall fixed x bs lvl st st' evs oc,
+  run_blocks_gen fixed x bs lvl st = (st', evs, oc) ->
+  x_kind x = XNone -> Forall (fun e => ev_out e = OOk) evs ->
+  Forall (block_ok (t_heap st)) bs -> wf_heap (t_heap st) ->
+  all_sloteq st' st /\ t_vals st' = t_vals st /\ oc = OOk.
+Proof. exact restore_normal. Qed.
+Print Assumptions C13_swap_then_restore.
+
+(* the side condition on buffer names cannot be dropped: D131 *)
+Definition C13_swap_then_restore_unconditional_full_statement : Prop := swap_then_restore_unconditional_statement.
+Theorem C13_swap_then_restore_unconditional_refuted : ~ swap_then_restore_unconditional_statement.
+Proof. exact swap_then_restore_unconditional_refuted. Qed.
+Print Assumptions C13_swap_then_restore_unconditional_refuted.
+
+(* ---- restore_on_exception: the statement for the code as it is (run_blocks) ... *)
+Definition C13_restore_on_exception_full_statement : Prop := restore_on_exception_statement.
+(* ... is false: D6 (witness: two nested blocks, Exception raised in the inner body; checked by vm_compute) *)
+Theorem C13_restore_on_exception_refuted : ~ restore_on_exception_statement.
+Proof. exact restore_on_exception_refuted. Qed.
+Print Assumptions C13_restore_on_exception_refuted.
+
+(* partial, code as it is: a BaseException (KeyboardInterrupt, GeneratorExit ...) in the body of a block is inverted *)
+Theorem C13_restore_on_exception_partial : forall b st st' evs oc,
+  run_blocks_gen false (mkExc XBase 0 true) [b] 0 st = (st', evs, oc) ->
+  block_ok (t_heap st) b -> wf_heap (t_heap st) -> enters_ok evs ->
+  all_sloteq st' st /\ t_vals st' = t_vals st.
+Proof. exact restore_base_single. Qed.
+Print Assumptions C13_restore_on_exception_partial.
+
+(* with the repair (exit_block_gen true: the inverse is run whatever the body raised) the full statement holds: every
+   program, every injection point and exception class, every nesting depth *)
+Theorem C13_restore_on_exception_repaired : forall x bs lvl st st' evs oc,
+  run_blocks_gen true x bs lvl st = (st', evs, oc) ->
+  Forall (block_ok (t_heap st)) bs -> wf_heap (t_heap st) -> enters_ok evs ->
+  all_sloteq st' st /\ t_vals st' = t_vals st.
+Proof. exact restore_fixed. Qed.
+Print Assumptions C13_restore_on_exception_repaired.
+
+(* ---- inplace=True: identities stay, but with a tied tensor the original content is not written back (D134) *)
+Theorem C13_inplace_tied_values_refuted :
+  let '(st', evs, oc) := run_blocks (mkExc XNone 0 false) [ex_b4] 0 (mkSt ex_heap4 ex_vals FRESH_BASE) in
+  Forall (fun e => ev_out e = OOk) evs /\ t_heap st' = ex_heap4
+  /\ z_get (t_vals st') 1%Z = Some 1%Z /\ z_get ex_vals 1%Z = Some 10%Z.
+Proof. exact ex_D134. Qed.
+Print Assumptions C13_inplace_tied_values_refuted.
+
+(* ---- params_registration: after any sequence of updates issued on the TensorDictParams itself, _parameters and
+   _buffers are exactly the leaves (flattened names assumed pairwise different, i.e. no "."-collision) *)
+Theorem C13_params_registration : forall ops s,
+  registered_exactly s -> Forall (fun o => top_level o = true) ops ->
+  (forall n, names_unique (run_ops s (firstn n ops))) ->
+  registered_exactly (run_ops s ops).
+Proof. exact params_registration_lemma. Qed.
+Print Assumptions C13_params_registration.
+
+(* the restriction to updates issued on the TensorDictParams cannot be dropped: D135 *)
+Definition C13_params_registration_full_statement : Prop :=
+  forall ops s, registered_exactly s -> (forall n, names_unique (run_ops s (firstn n ops))) -> registered_exactly (run_ops s ops).
+Theorem C13_params_registration_nested_refuted :
+  registered_exactly ex_tdp /\ names_unique (run_ops ex_tdp [ONestedSet ["n"] "z" (oP 2)])
+  /\ ~ registered_exactly (run_ops ex_tdp [ONestedSet ["n"] "z" (oP 2)]).
+Proof. exact ex_D135. Qed.
+Print Assumptions C13_params_registration_nested_refuted.
+
+(* ---- non-vacuity: a heap with a shared submodule (root.a is root.b), a tied parameter (root.w is root.c.w), a module
+   with its own __setattr__ and a None parameter meets the hypotheses; a two-level program over it runs normally *)
+Example C13_ex_hypotheses : Forall (block_ok (t_heap ex_st)) [ex_b1; ex_b2] /\ wf_heap (t_heap ex_st).
+Proof. exact ex_hyps. Qed.
+Example C13_ex_normal_run :
+  let '(st', evs, oc) := run_blocks (mkExc XNone 0 false) [ex_b1; ex_b2] 0 ex_st in
+  Forall (fun e => ev_out e = OOk) evs /\ List.length evs = 4%nat /\ oc = OOk.
+Proof. exact ex_normal_run. Qed.
+Example C13_ex_from_module :
+  (forall c n, h_get ex_heap c = Some n -> names_ok n)
+  /\ exists t, from_module 4 ex_heap 0 = FmTd t /\ List.length (flat_leaves "" t) = 5%nat.
+Proof. exact ex_from_module. Qed.
+Example C13_ex_params : registered_exactly ex_tdp /\ top_level (OSet ["n"; "z"] (oT 2) true true) = true.
+Proof. split; [exact (proj1 ex_D135)|reflexivity]. Qed.
